@@ -510,6 +510,21 @@ CASES += [
     # wave 7: the emptiness test of rc::Weak compares the handle with itself
     dict(name='m-weak-empty-self-compare', kind='mutant', props=['C15'], expect=['C15'],
          edits=[(WK, '''        if RcWeak::ptr_eq(&RcWeak::new(), me) {''', '''        if RcWeak::ptr_eq(me, me) {''')]),
+    # wave 9: the cache skips its refresh in some state of the thread (here: while unwinding)
+    dict(name='m-cache-skip-when-panicking', kind='mutant', props=['C16'], expect=['C16'],
+         edits=[(CA, '''        if cached_ptr != shared_ptr {
+            self.cached = self.arc_swap.load_full();''', '''        if cached_ptr != shared_ptr {
+            if std::thread::panicking() {
+                return;
+            }
+            self.cached = self.arc_swap.load_full();''')]),
+    # wave 9: a conversion of the wrong pointer kind type-checks on the same `*const T`
+    dict(name='m-weak-from-raw-wrong-kind', kind='mutant', props=['C15'], expect=['C15'],
+         edits=[(WK, '''            Weak::new()
+        } else {
+            Weak::from_raw(ptr)''', '''            Weak::new()
+        } else {
+            core::mem::transmute::<RcWeak<T>, Weak<T>>(RcWeak::from_raw(ptr))''')]),
     # the helper of rcu takes the guard of the running attempt by value: it is destroyed after the answer sits in the helper's return place
     dict(name='m-rcu-helper-by-value', kind='mutant', props=['C18', 'C06'], expect=['C18'],
          edits=[(LB, '''            let prev = self.compare_and_swap(&*cur, new);
